@@ -939,7 +939,8 @@ def check_packed_words(repo: Repo, run: Run) -> None:
             if len({m for _, m in fs}) < 2:
                 continue
             n += 1
-            ov = [(a, b) for i, a in enumerate(fs) for b in fs[i + 1:] if a[1] & b[1] and a[1] != b[1]]
+            # (two extractions inside one field - a word cut to its width and then tested bit by bit - are one field's business)
+            ov = [(a, b) for i, a in enumerate(fs) for b in fs[i + 1:] if a[1] & b[1] and a[1] != b[1] and a[0] != b[0]]
             run.ob("R7", e.module.name, e.func_name, f"{e.key}: fields of {sym.pretty(w)}", not ov,
                    "" if not ov else
                    f"{e.key}: field `{ov[0][0][0]}` is computed from bits {ov[0][0][1]:#x} of {sym.pretty(w)} and field "
@@ -948,6 +949,56 @@ def check_packed_words(repo: Repo, run: Run) -> None:
                    facts={"fields": [(k, hex(m)) for k, m in fs]}, line=e.func.lineno,
                    witness=None if not ov else "a word whose overlapping bits are non-zero while the narrower field is zero")
     run.floor("R7", "decoders that split a record word into several fields", n, 4)
+    # R7 (second half): a word that is cut to a width before its members are looked for must keep every bit a declared member
+    # is made of - `serialize(mode & 0o77777)` can never show S_IFREG (0o100000)
+    n_cut = 0
+    for e in D.entries():
+        d = D.decode(e)
+        if d.ret is None or d.ret.op != "new":
+            continue
+        seen = set()
+
+        def _elemval(t):
+            return t.op == "attr" and t.a[1] == "value" and t.a[0].op == "elem" and isinstance(t.a[0].a[0], T)
+        for k, v in d.ret.a[1]:
+            cands = []          # (cut word term, member-value term, field mask or None)
+            for x in sym.walk(v):
+                if x.op == "bin" and x.a[0] == "&":
+                    for o, other in ((x.a[1], x.a[2]), (x.a[2], x.a[1])):
+                        if _elemval(other):
+                            cands.append((o, other, None))
+                elif x.op == "cmp" and x.a[0] in ("==", "!="):
+                    for l, r in ((x.a[1], x.a[2]), (x.a[2], x.a[1])):
+                        if _elemval(r) and l.op == "bin" and l.a[0] == "&":
+                            for o, c in ((l.a[1], l.a[2]), (l.a[2], l.a[1])):
+                                if _ci(c) is not None:
+                                    cands.append((o, r, _ci(c)))
+            for o, ev, fld in cands:
+                r = _reach(o)
+                if r is None or _is_word(o):
+                    continue
+                src = enum_source(repo, ev.a[0].a[0])
+                if src is None:
+                    continue
+                ci, members, _how = src
+                w, m, sh = r
+                rng = m >> sh
+                need = [(nm, val) for nm, val in members if isinstance(val, int) and val > 0 and (fld is None or val & ~fld == 0)]
+                key = (k, w, rng, ci.name, fld)
+                if key in seen:
+                    continue
+                seen.add(key)
+                n_cut += 1
+                lost = [(nm, val) for nm, val in need if val & ~rng]
+                run.ob("R7", e.module.name, e.func_name,
+                       f"{e.key}: {sym.pretty(w)} cut to {rng:#x} keeps every declared bit of {ci.name}"
+                       + (f" in the field {fld:#x}" if fld is not None else ""), not lost,
+                       "" if not lost else
+                       f"{e.key}: field `{k}` looks for the members of {ci.name} in {sym.pretty(o)[:60]}, which keeps only the "
+                       f"bits {rng:#x}; {lost[0][0]} = {lost[0][1]:#x} has a bit outside them and is never shown (or shown as "
+                       f"another member)", line=e.func.lineno,
+                       witness=None if not lost else f"a word whose field is {lost[0][1]:#x}")
+    run.analysed["words_cut_before_member_selection"] = n_cut
 
 
 def check_ioctl(repo: Repo, run: Run, interp) -> None:
